@@ -113,7 +113,7 @@ def bounded(chk):
         return
     w = res.get("witness")
     o = chk.bounded_result("bounded:generic-definition==textually-specialised-copy-on-the-emulator(type, nat, bool-const and comptime parameters; generic structs; composition; partial specialisation)",
-                           not res.get("violates"), res["evaluations"], detail=res.get("detail") or f"{res['evaluations']} result components of 12 definitions x 2-3 instantiations agree", witness=w,
+                           not res.get("violates"), res["evaluations"], detail=res.get("detail") or f"{res['evaluations']} result components of {ORACLE.count(chr(10) + '    (' + chr(34))} definitions x 1-3 instantiations agree", witness=w,
                            func="guppylang_internals.definition.function:CheckedFunctionDef.monomorphize")
     if w:
         o.replay.update({"script": ORACLE + DRIVER, "input": {"only": w["definition"]}})
@@ -126,6 +126,7 @@ def run(chk):
     chk.section("compile_variable_idx", lambda: s4(chk))
     chk.section("method-parameters", lambda: s5(chk))
     chk.section("mono-args-scope", lambda: s6(chk))
+    chk.section("partially_monomorphize_args", lambda: s7(chk))
     chk.section("bounded", lambda: bounded(chk))
     chk.expected_min_obligations = 60
     chk.assumptions += [
@@ -133,7 +134,7 @@ def run(chk):
         "structural induction over type trees is applied by hand: S1 is the induction step for every node class, S2 the base case for variables",
         "dataclasses.replace / dataclass-generated __init__/__eq__ as modelled by pyvc",
     ]
-    chk.not_covered += ["CheckedFunctionDef.monomorphize and the HUGR emitted for (partially) monomorphized bodies as contracts (the bounded layer runs 12 generic definitions against their textually specialised copies on the emulator; borrowed arrays of generic size cannot be lowered by this sandbox's selene toolchain and are outside it)",
+    chk.not_covered += ["CheckedFunctionDef.monomorphize and the HUGR emitted for (partially) monomorphized bodies as contracts (the bounded layer runs 15 generic definitions against their textually specialised copies on the emulator; borrowed arrays of generic size cannot be lowered by this sandbox's selene toolchain and are outside it)",
                         "check_arg / type-argument inference (C12)"]
 
 
@@ -592,6 +593,150 @@ def s6(chk):
                 return z3.BoolVal(p.value == want)
             chk.prove_paths(f"set_monomorphized_args[previous={outer},nesting={depth}]:value-visible-inside/\\previous-value-restored-on-exit-of-every-level", e.explore(t), post,
                             func=f"{CC}:CompilerContext.set_monomorphized_args")
+    chk.use_engine(e)
+
+
+REPLAY_PMA = r'''
+import tempfile, importlib.util, os, sys, shutil
+src = """from guppylang import guppy
+from guppylang.std.builtins import nat, result, comptime
+@guppy
+def inner[T: (Copy, Drop)](t: T, x: T @comptime) -> T:
+    return x
+@guppy
+def outer[T: (Copy, Drop)](t: T, x: T @comptime) -> T:
+    return inner(t, x)
+@guppy
+def main() -> None:
+    result("n", int(outer(nat(1), 5)))
+    result("i", outer(-1, 6))
+"""
+d = tempfile.mkdtemp(dir=os.environ.get("TMPDIR", "/var/tmp")); fn = os.path.join(d, "replay_c13p.py"); open(fn, "w").write(src)
+spec = importlib.util.spec_from_file_location("replay_c13p", fn); m = importlib.util.module_from_spec(spec); sys.modules["replay_c13p"] = m
+try:
+    spec.loader.exec_module(m)
+    try:
+        got = [list(x) for x in list(m.main.emulator(n_qubits=1).run().results)[0].entries]
+        out = {"violates": got != [["n", 5], ["i", 6]], "observed": got, "required": [["n", 5], ["i", 6]]}
+    except AssertionError as ex:
+        out = {"violates": True, "observed": "AssertionError while lowering the composed instantiation T := nat " + repr(ex)[:100], "required": "compiles and reports n=5, i=6 like the hand-specialised copies"}
+except Exception as ex:
+    out = {"violates": False, "error": repr(ex)[:300]}
+shutil.rmtree(d, ignore_errors=True)
+print(json.dumps(out))
+'''
+
+
+def s7(chk):
+    """S7 — partially_monomorphize_args (compiler/core.py): which arguments of a call's instantiation
+    become part of the callee's monomorphization key, decided on the instantiation NORMALISED by the
+    caller's own monomorphization.  Specification (from the property: a composed instantiation behaves
+    like the textual one): with inst[i] = args[i] after substituting the caller's fixed parameters,
+      mono[i] = inst[i]  iff  parameter i is a const parameter whose type, instantiated with inst, is not
+                              nat, or i is a variable occurring in the (non-nat) declared type of a const
+                              parameter;          mono[i] = None otherwise,
+      rem = [inst[i] | mono[i] is None] in order, and no mono[i] mentions a caller variable."""
+    e = mk_engine(chk)
+    e.func_info(CC, "partially_monomorphize_args")
+    m = e.module(CC)
+
+    # parameter lists of the callee / argument descriptions / the caller's monomorphization
+    # type descriptors: "nat" | "int" | "bool" | ("T", j) (the callee's own parameter j, in declared types)
+    # argument descriptors: ("ty", "nat"/"int") | ("val", "nat"/"int"/"bool", v) | ("oty", j) | ("oconst", j, tydesc-of-caller)
+    def mk_ty(k, d, caller=False):
+        if d == "nat":
+            return k.nat()
+        if d == "int":
+            return k.int_()
+        if d == "bool":
+            return k.call(k.it.lookup_global(e.module("guppylang_internals.tys.builtin"), "bool_type"))
+        return k.tv(d[1])
+
+    def mk_arg(k, a):
+        if a is None:
+            return None
+        if a[0] == "ty":
+            return k.call(k.TA, mk_ty(k, a[1]))
+        if a[0] == "val":
+            return k.call(k.CA, k.call(k.CV, mk_ty(k, a[1]), a[2]))
+        if a[0] == "oty":
+            return k.call(k.TA, k.tv(a[1]))
+        return k.call(k.CA, k.call(k.BCV, mk_ty(k, a[2]), f"x{a[1]}", a[1]))
+
+    def resolve(a, outer):
+        """reference normalisation of an argument description by the caller's monomorphization"""
+        if outer is None:
+            return a
+        if a[0] == "oty":
+            return outer[a[1]] if a[1] < len(outer) and outer[a[1]] is not None else a
+        if a[0] == "oconst":
+            if a[1] < len(outer) and outer[a[1]] is not None:
+                return outer[a[1]]
+            t = a[2]
+            if isinstance(t, tuple) and t[1] < len(outer) and outer[t[1]] is not None:
+                t = outer[t[1]][1]
+            return ("oconst", a[1], t)
+        return a
+
+    def ty_of(a):
+        return a[1] if a[0] in ("ty", "val") else (a[2] if a[0] == "oconst" else ("T", a[1]))
+
+    def reference(params, args, outer):
+        inst = [resolve(a, outer) for a in args]
+        mono = [None] * len(inst)
+        for i, pd in enumerate(params):
+            if pd[0] != "const":
+                continue
+            decl = pd[1]
+            if decl != "nat" and isinstance(decl, tuple):
+                mono[decl[1]] = inst[decl[1]]
+            ity = ty_of(inst[decl[1]]) if isinstance(decl, tuple) else decl
+            if ity != "nat":
+                mono[i] = inst[i]
+        return mono, [a for i, a in enumerate(inst) if mono[i] is None]
+
+    TX = [("type",), ("const", ("T", 0))]
+    CASES = [
+        ("[T,x:T](nat,5)/plain-caller", TX, [("ty", "nat"), ("val", "nat", 5)], None),
+        ("[T,x:T](int,5)/plain-caller", TX, [("ty", "int"), ("val", "int", 5)], None),
+        ("[T,x:T](T',x')/caller[T':=nat,x'-open]", TX, [("oty", 0), ("oconst", 1, ("T", 0))], [("ty", "nat"), None]),
+        ("[T,x:T](T',x')/caller[T':=int,x':=5]", TX, [("oty", 0), ("oconst", 1, ("T", 0))], [("ty", "int"), ("val", "int", 5)]),
+        ("[T,x:T](nat,x')/caller[x'-open-nat]", TX, [("ty", "nat"), ("oconst", 0, "nat")], [None]),
+        ("[n:nat](n')/caller[n'-open]", [("const", "nat")], [("oconst", 0, "nat")], [None]),
+        ("[n:nat](3)/plain-caller", [("const", "nat")], [("val", "nat", 3)], None),
+        ("[b:bool](True)/plain-caller", [("const", "bool")], [("val", "bool", True)], None),
+        ("[b:bool](b')/caller[b':=True]", [("const", "bool")], [("oconst", 0, "bool")], [("val", "bool", True)]),
+        ("[T](T')/caller[T'-open]", [("type",)], [("oty", 0)], [None]),
+        ("[T](int)/plain-caller", [("type",)], [("ty", "int")], None),
+        ("[U,T,x:T](U',T',x')/caller[U'-open,T':=nat,x'-open]", [("type",), ("type",), ("const", ("T", 1))],
+         [("oty", 0), ("oty", 1), ("oconst", 2, ("T", 1))], [None, ("ty", "nat"), None]),
+        ("[U,T,x:T](U',T',x')/caller[U'-open,T':=int,x':=7]", [("type",), ("type",), ("const", ("T", 1))],
+         [("oty", 0), ("oty", 1), ("oconst", 2, ("T", 1))], [None, ("ty", "int"), ("val", "int", 7)]),
+    ]
+    for name, params, args, outer in CASES:
+        def t(it, params=params, args=args, outer=outer):
+            k = K(e, it)
+            ps = []
+            for i, pd in enumerate(params):
+                if pd[0] == "type":
+                    ps.append(k.call(k.TP, i, f"P{i}", True, True))
+                else:
+                    ps.append(k.call(k.CP, i, f"p{i}", mk_ty(k, pd[1])))
+            av = [mk_arg(k, a) for a in args]
+            before = list(av)
+            ctx = SObj(it.lookup_global(m, "CompilerContext"), {"current_mono_args": None if outer is None else tuple(mk_arg(k, a) for a in outer)})
+            got = it.call(it.lookup_global(m, "partially_monomorphize_args"), [ps, av, ctx], {})
+            wm, wr = reference(params, args, outer)
+            return got, tuple(mk_arg(k, a) for a in wm), [mk_arg(k, a) for a in wr], av, before
+
+        def post(p):
+            if p.kind != "return":
+                return z3.BoolVal(False)
+            (gm, gr), wm, wr, av, before = p.value
+            untouched = len(av) == len(before) and all(x is y for x, y in zip(av, before))
+            return z3.BoolVal(same(list(gm), list(wm)) and same(list(gr), list(wr)) and untouched)
+        chk.prove_paths(f"partially_monomorphize_args{name}:mono==args-forced-by-the-NORMALISED-instantiation/\\rem==the-rest-normalised-in-order/\\caller's-list-untouched",
+                        e.explore(t), post, func=f"{CC}:partially_monomorphize_args", replay=lambda mdl: {"script": REPLAY_PMA, "input": {}})
     chk.use_engine(e)
 
 
